@@ -94,6 +94,8 @@ func newImageIndexForImage(image bufimage.Image, options *imageFilterOptions) (*
 		pkg := addPackageToIndex(imageFile.FileDescriptorProto().GetPackage(), index)
 		pkg.files = append(pkg.files, imageFile)
 		fileName := imageFile.Path()
+		// Every file has an entry, also a file that declares no types.
+		index.FileTypes[fileName] = nil
 		fileDescriptorProto := imageFile.FileDescriptorProto()
 		index.ByDescriptor[fileDescriptorProto] = elementInfo{
 			fullName: pkg.fullName,
